@@ -57,8 +57,11 @@ type PropCase struct {
 	Primary int            `json:"primary"`
 	// Mid > 0: a block is accepted between the first and the second (Late) pass of offers: 1 an empty one, 2 one
 	// made of the MidK best pooled transactions (the pool is refreshed by it, the late offers meet the refreshed pool).
-	Mid  int `json:"mid,omitempty"`
-	MidK int `json:"mid_k,omitempty"`
+	// Mid == 3: that block carries committee transactions (MidSpec) changing the policy the pooled transactions
+	// were admitted under: fee per byte, execution fee factor, attribute fees, a payer's account blocked.
+	Mid     int           `json:"mid,omitempty"`
+	MidK    int           `json:"mid_k,omitempty"`
+	MidSpec *ck.BlockSpec `json:"mid_spec,omitempty"`
 	// Aim != nil: MaxBlockSize is not drawn but derived from the case: the case is first evaluated with the wide
 	// default, the real encoding of a block holding the best Cut pooled transactions is measured, and the case is
 	// then evaluated with MaxBlockSize = that size + Delta (Delta in -2..2), so that the size rule binds exactly
@@ -104,6 +107,17 @@ func genPropCase(t *rapid.T) PropCase {
 		c.Mid = 1
 	case 2:
 		c.Mid, c.MidK = 2, rapid.IntRange(1, 6).Draw(t, "mid_k")
+	case 3:
+		c.Mid = 3
+		bs := ck.BlockSpec{TimeD: 1000, Nonce: rapid.Uint64().Draw(t, "mid_nonce")}
+		for j := rapid.IntRange(1, 2).Draw(t, "mid_n"); j > 0; j-- {
+			if rapid.IntRange(0, 2).Draw(t, "mid_block_account") == 0 {
+				bs.Txs = append(bs.Txs, ck.Action{Kind: "policy", S: "blockAccount", From: 4 + rapid.IntRange(0, 1).Draw(t, "payer"), A: rapid.IntRange(0, 5).Draw(t, "blocked"), Nonce: rapid.Uint32().Draw(t, "pnonce")})
+			} else {
+				bs.Txs = append(bs.Txs, genPolicyAction(t))
+			}
+		}
+		c.MidSpec = &bs
 	}
 	for i := 0; i < n; i++ {
 		p := PTx{
@@ -418,6 +432,15 @@ func checkProp1(c PropCase, o *vt.Obs, nonCanon, srihKnown bool, ms *measure) er
 			return fmt.Errorf("block of the %d best pooled transactions between the offers: %v", kk, err)
 		}
 		o.Label("mid-block-from-pool")
+	case 3:
+		if c.MidSpec != nil {
+			if err := e.specBlock(*c.MidSpec, false); err != nil {
+				return fmt.Errorf("policy block between the offers: %v", err)
+			}
+			for _, a := range c.MidSpec.Txs {
+				o.Labelf("mid-block-policy-%s", a.S)
+			}
+		}
 	}
 	if c.Mid > 0 {
 		// nothing that is on chain or outside its validity window may stay pooled
@@ -439,8 +462,8 @@ func checkProp1(c PropCase, o *vt.Obs, nonCanon, srihKnown bool, ms *measure) er
 	if rejected > 0 {
 		o.Label("some-offers-rejected")
 	}
-	if victim >= 0 && !c.Conf.Before && c.Mid == 2 {
-		// the block between the offers put pooled transactions on chain: the victim may be one of them, may name one
+	if victim >= 0 && !c.Conf.Before && c.Mid >= 2 {
+		// the block between the offers put pooled transactions on chain or changed the policy: the victim may be one of them, may name one
 		// of them or be named by one of them, so the expectations of the scenario below do not hold as written.
 		victim = -1
 		o.Label("onchain-conflict-skipped-after-pool-block")
